@@ -365,6 +365,8 @@ def check_C08(ctx, rep):
 
 
 def check_C09(ctx, rep):
+    small_models2.check_pda_acceptance(ctx, rep, ctx.prog.func('pda_algorithms.pda_accepts_word'))
+    rep.clauses_decided.append('pda_accepts_word answers True exactly when an accepting computation exists on six model PDAs with small epsilon closures (push, pop, replace, stack-neutral moves, a push and a pop on the same letter) and all words up to length 4 resp. 3 (M25, finite model)')
     rep.clauses_decided += ['closure worklist records and enqueues each configuration once, limit read at call time, at least `limit` pops allowed (R-WORK W1/W2/W4)',
                             'every pda_pop_push is dominated by pda_can_pop_push on the same arguments (guard pairing)',
                             'the guard is true exactly when u is epsilon or on top of the stack, and the action pops u / pushes v, on a finite model of symbols and stacks (M9)',
